@@ -1,6 +1,6 @@
 package main
 
-// C16 tool-level family: the BUILT command-line tools (cmd/mp4ff-pslister, package main, built by bin/check into
+// C16 tool-level family: the BUILT command-line tools (cmd/mp4ff-pslister, cmd/mp4ff-nallister; package main, built by bin/check into
 // $VERIF_BUILD/tools) are run as processes on parameter-set material. The `pslister.*` / `nallister.*` entry
 // points of c16_ops.go only re-enact the library calls of the tools; the code of the tools themselves (which
 // parameter set is listed, what happens after one of them failed to parse, which input mode hands which NAL
@@ -19,6 +19,16 @@ package main
 //   mp4frag  init segment without parameter sets + one fragment whose first sample holds all entries in order
 //   mp4prog  progressive file without parameter sets in the sample entry, first sample holds all entries
 // Only the elementary-stream bytes are hostile; the container around them is well formed.
+//
+// Protocol line:  tool.nallister.<mode> <p1> <p2> - - <entries>      (cmd/mp4ff-nallister)
+//   mode     annexb | mp4frag | mp4prog   (every kind of input the tool reads)
+//   p1       bit0: -c hevc   bit1: -ps   bit2: HEVC sample entry (mp4 modes)   bits3-4: -sei 0|1|2|3 (0 = option absent)
+//            bits5-6: -raw absent|1|4|100000   bits7-8: -m absent|1|2|0
+//   p2       annexb: the layout bits of tool.pslister.annexb; mp4 modes: bit0 co64 (mp4prog), bit3: the length field
+//            of the last NAL unit of the sample is 3 too large, bit4: the sample ends 2 bytes early, bit5: the V/S/P
+//            entries are ALSO the parameter-set arrays of the avcC / hvcC box (otherwise the box carries none),
+//            bit6: avc3 / hev1 sample entry
+//   entries  as above; all entries in order are the Annex B stream / the first sample
 // Answer: "ok" (exit 0) | "err" (exit 1) | "panic: <message> @ <func> <file:line>" | "oom" | "hang" | "crash ...",
 // followed by " !mem" / " !time" when the resident set / the CPU time of the process exceeds its bound.
 
@@ -154,8 +164,12 @@ func c16TFileInit(boxHevc, inband bool, v, s, p [][]byte) []byte {
 }
 
 func c16TFileFrag(boxHevc bool, sample []byte) []byte {
+	return c16TFileFragPS(boxHevc, true, nil, nil, nil, sample)
+}
+
+func c16TFileFragPS(boxHevc, inband bool, v, s, p [][]byte, sample []byte) []byte {
 	var buf bytes.Buffer
-	must(c16TInit(boxHevc, true, nil, nil, nil).Encode(&buf))
+	must(c16TInit(boxHevc, inband, v, s, p).Encode(&buf))
 	seg := mp4.NewMediaSegment()
 	frag, err := mp4.CreateFragment(1, 1)
 	must(err)
@@ -169,7 +183,11 @@ func c16TFileFrag(boxHevc bool, sample []byte) []byte {
 }
 
 func c16TFileProg(boxHevc, co64 bool, sample []byte) []byte {
-	init := c16TInit(boxHevc, true, nil, nil, nil)
+	return c16TFileProgPS(boxHevc, co64, true, nil, nil, nil, sample)
+}
+
+func c16TFileProgPS(boxHevc, co64, inband bool, v, s, p [][]byte, sample []byte) []byte {
+	init := c16TInit(boxHevc, inband, v, s, p)
 	moov := init.Moov
 	var kids []mp4.Box
 	for _, c := range moov.Children {
@@ -239,7 +257,7 @@ func c16TParse(req string) (*c16TLine, error) {
 		return nil, fmt.Errorf("bad tool op")
 	}
 	l := &c16TLine{tool: "mp4ff-" + op[1], mode: op[2]}
-	if op[1] != "pslister" {
+	if op[1] != "pslister" && op[1] != "nallister" {
 		return nil, fmt.Errorf("unknown tool")
 	}
 	l.p1, _ = strconv.Atoi(f[1])
@@ -259,6 +277,9 @@ func c16TParse(req string) (*c16TLine, error) {
 
 // c16TCommand returns the argument list and, for the file modes, the name and content of the input file.
 func (l *c16TLine) command() (args []string, fname string, file []byte, err error) {
+	if l.tool == "mp4ff-nallister" {
+		return l.nallisterCommand()
+	}
 	if l.p1&c16TFHevc != 0 {
 		args = append(args, "-c", "hevc")
 	}
@@ -318,6 +339,84 @@ func (l *c16TLine) command() (args []string, fname string, file []byte, err erro
 	if fname != "" {
 		args = append(args, "-i", fname)
 	}
+	return
+}
+
+// c16TAnnexB writes the NAL units behind start codes (layout bits as documented at the top).
+func c16TAnnexB(p2 int, all [][]byte) (file []byte) {
+	if p2&4 != 0 {
+		file = append(file, 0, 0)
+	}
+	for i, n := range all {
+		if p2&1 != 0 || (p2&8 != 0 && i%2 == 0) {
+			file = append(file, 0)
+		}
+		file = append(file, 0, 0, 1)
+		file = append(file, n...)
+	}
+	if p2&2 != 0 {
+		file = append(file, 0, 0, 1)
+	}
+	return file
+}
+
+// nallisterCommand: mp4ff-nallister [-c hevc] [-ps] [-sei n] [-raw n] [-m n] [-annexb] infile
+func (l *c16TLine) nallisterCommand() (args []string, fname string, file []byte, err error) {
+	if l.p1&c16TFHevc != 0 {
+		args = append(args, "-c", "hevc")
+	}
+	if l.p1&c16TFVerbose != 0 {
+		args = append(args, "-ps")
+	}
+	if v := (l.p1 >> 3) & 3; v != 0 {
+		args = append(args, "-sei", strconv.Itoa(v))
+	}
+	if v := (l.p1 >> 5) & 3; v != 0 {
+		args = append(args, "-raw", []string{"", "1", "4", "100000"}[v])
+	}
+	if v := (l.p1 >> 7) & 3; v != 0 {
+		args = append(args, "-m", []string{"", "1", "2", "0"}[v])
+	}
+	boxHevc := l.p1&c16TFBoxHevc != 0
+	var all [][]byte
+	for _, e := range l.entries {
+		all = append(all, e.n)
+	}
+	sample := func() []byte {
+		d := c16LenPrefixed(all)
+		if l.p2&8 != 0 && len(all) > 0 {
+			k := len(d) - len(all[len(all)-1]) - 4
+			binary.BigEndian.PutUint32(d[k:], uint32(len(all[len(all)-1])+3))
+		}
+		if l.p2&16 != 0 && len(d) >= 2 {
+			d = d[:len(d)-2]
+		}
+		return d
+	}
+	var v, s, p [][]byte
+	if l.p2&32 != 0 {
+		v, s, p = c16TByRole(l.entries, 'V'), c16TByRole(l.entries, 'S'), c16TByRole(l.entries, 'P')
+	}
+	inband := l.p2&64 != 0
+	if pn := safe(func() {
+		switch l.mode {
+		case "annexb":
+			args = append(args, "-annexb")
+			fname = []string{"in.264", "in.bin"}[(l.p2>>4)&1]
+			file = c16TAnnexB(l.p2, all)
+		case "mp4frag":
+			fname = "in.mp4"
+			file = c16TFileFragPS(boxHevc, inband, v, s, p, sample())
+		case "mp4prog":
+			fname = "in.mp4"
+			file = c16TFileProgPS(boxHevc, l.p2&1 != 0, inband, v, s, p, sample())
+		default:
+			err = fmt.Errorf("unknown mode")
+		}
+	}); pn != "" {
+		err = fmt.Errorf("could not build the input: %s", pn)
+	}
+	args = append(args, fname)
 	return
 }
 
@@ -493,6 +592,8 @@ type c16TSet struct {
 	slice []byte
 	aud   []byte
 	other []byte // an SPS of the other codec
+	sei   []byte // SEI NAL units (tool.nallister only, set by nallisterCases)
+	sei2  []byte
 }
 
 func c16TNewSet(r *rand.Rand, codec string) *c16TSet {
@@ -552,11 +653,22 @@ func (g *c16G) toolBad(kind string, t *c16TSet, v, alt []byte) []byte {
 	switch kind {
 	case "empty":
 		return []byte{}
+	case "len1", "len2", "len3": // NAL units of 1, 2, 3 bytes (tool.nallister)
+		if n := int(kind[3] - '0'); n < len(v) {
+			return cp(v[:n])
+		}
+		return cp(v)
 	case "short": // shorter than the NAL unit header plus the first fixed-length fields
-		return cp(v[:1+g.r.Intn(h+2)])
+		if n := 1 + g.r.Intn(h+2); n < len(v) {
+			return cp(v[:n])
+		}
+		return cp(v[:len(v)-1])
 	case "hdronly":
 		return cp(v[:h])
 	case "trunc":
+		if len(v) == h+1 {
+			return cp(v[:h])
+		}
 		return cp(v[:h+1+g.r.Intn(len(v)-h-1)])
 	case "garbage":
 		return append(cp(v[:h]), g.randBytes(1+g.r.Intn(48))...)
@@ -644,7 +756,14 @@ func (g *c16G) toolEntries(t *c16TSet, sc *c16TScenario, kind string) []c16TEntr
 		case 'A':
 			role, v = 'X', t.aud
 		case 'L':
-			role, v = 'X', t.slice
+			role, v, alt = 'X', t.slice, t.aud
+		case 'E':
+			role, v, alt = 'X', t.sei, t.aud
+		case 'F':
+			role, v, alt = 'X', t.sei2, t.slice
+		}
+		if f[i] == 'A' {
+			alt = t.slice
 		}
 		bad := i+1 < len(f) && f[i+1] == '!'
 		if bad {
@@ -667,6 +786,8 @@ func (g *c16G) toolEntries(t *c16TSet, sc *c16TScenario, kind string) []c16TEntr
 var c16TModes = []string{"hex", "annexb", "mp4init", "mp4frag", "mp4prog"}
 
 type c16TCase struct {
+	tool           string // pslister | nallister
+	flags          string // tool.nallister: the option combination, for the statistics
 	line           string
 	mode, scn, knd string
 	n              int
@@ -703,7 +824,108 @@ func (g *c16G) toolCases(reps int) []c16TCase {
 							p1 |= c16TFVerbose
 						}
 						p2 := g.r.Intn(32)
-						out = append(out, c16TCase{line: c16Line("tool.pslister."+mode, p1, p2, nil, nil, d), mode: mode, scn: codec + "/" + sc.name, knd: kind, n: len(d)})
+						out = append(out, c16TCase{tool: "pslister", line: c16Line("tool.pslister."+mode, p1, p2, nil, nil, d), mode: mode, scn: codec + "/" + sc.name, knd: kind, n: len(d)})
+					}
+				}
+			}
+		}
+	}
+	return out
+}
+
+// ---------------------------------------------------------------- tool.nallister
+
+var c16TNalModes = []string{"annexb", "mp4frag", "mp4prog"}
+
+// the ways of breaking a unit for mp4ff-nallister: those of the parameter-set lists plus NAL units of 1, 2, 3 bytes
+var c16TNalBadKinds = append(append([]string{}, c16TBadKinds...), "len1", "len2", "len3")
+
+// c16TNalScenarios: the list shapes of tool.pslister, plus access units with SEI NAL units (E, F) in which the unit at
+// each position in turn is broken, plus streams that consist of SEI NAL units only.
+func c16TNalScenarios() []c16TScenario {
+	l := append([]c16TScenario{}, c16TScenarios...)
+	for _, form := range []string{"AVSPEL", "EAVSPLF"} {
+		for i := 0; i < len(form); i++ {
+			l = append(l, c16TScenario{name: fmt.Sprintf("%s-pos%d", form, i), bad: true, hevc: form[i] == 'V',
+				form: form[:i+1] + "!" + form[i+1:]})
+		}
+	}
+	return append(l,
+		c16TScenario{name: "access-unit-sei", form: "AVSPEFL"},
+		c16TScenario{name: "sei-only", form: "EF"},
+		c16TScenario{name: "sei-only-bad", bad: true, form: "E!"},
+		c16TScenario{name: "sei-bad-twice", bad: true, form: "AE!LAF!L"},
+		c16TScenario{name: "two-access-units", form: "AVSPELAEL"},
+	)
+}
+
+// toolSei: an SEI NAL unit of the codec: NAL unit header + a payload of the C16 SEI generator (0..4 messages, typed
+// payloads cut below their fixed headers, declared sizes beyond the end, ...) or a captured SEI NAL unit.
+func (g *c16G) toolSei(codec string, suffix bool) []byte {
+	if g.k != nil && g.r.Intn(4) == 0 {
+		if codec == "avc" {
+			if d := g.pick(g.k.avcSei); len(d) > 1 {
+				return cp(d)
+			}
+		} else if d := g.pick(g.k.hevcSei); len(d) > 2 {
+			return cp(d)
+		}
+	}
+	hdr := []byte{6}
+	if codec == "hevc" {
+		hdr = []byte{39 << 1, 1}
+		if suffix {
+			hdr[0] = 40 << 1
+		}
+	}
+	return append(hdr, g.seiRbsp()...)
+}
+
+func (g *c16G) nallisterCases(reps int) []c16TCase {
+	var out []c16TCase
+	scns := c16TNalScenarios()
+	combo := g.r.Intn(1 << 16)
+	for rep := 0; rep < reps; rep++ {
+		for _, codec := range []string{"avc", "hevc"} {
+			for si := range scns {
+				sc := &scns[si]
+				if sc.hevc && codec != "hevc" {
+					continue
+				}
+				kinds := []string{"-"}
+				if sc.bad {
+					kinds = c16TNalBadKinds
+				}
+				for _, kind := range kinds {
+					t := c16TNewSet(g.r, codec)
+					t.sei, t.sei2 = g.toolSei(codec, false), g.toolSei(codec, true)
+					entries := g.toolEntries(t, sc, kind)
+					d := c16TEnc(entries)
+					for _, mode := range c16TNalModes {
+						p1 := 0
+						if (codec == "hevc") != (g.r.Intn(6) == 0) {
+							p1 |= c16TFHevc
+						}
+						if (codec == "hevc") != (g.r.Intn(12) == 0) {
+							p1 |= c16TFBoxHevc
+						}
+						// the option combinations are walked through in turn: -sei {absent,1,2,3} x -ps x -raw x -m
+						combo++
+						sei := combo & 3
+						ps := (combo >> 2) & 1
+						raw := (combo >> 3) & 3
+						m := (combo >> 5) & 3
+						if sei == 0 && g.r.Intn(2) == 0 { // the SEI code is what most of the material is for
+							sei = 1 + g.r.Intn(2)
+						}
+						p1 |= ps<<1 | sei<<3 | raw<<5 | m<<7
+						p2 := g.r.Intn(128)
+						if mode != "annexb" && g.r.Intn(4) != 0 {
+							p2 &^= 8 | 16 // most samples keep consistent length fields
+						}
+						out = append(out, c16TCase{tool: "nallister", line: c16Line("tool.nallister."+mode, p1, p2, nil, nil, d),
+							flags: fmt.Sprintf("sei%d/ps%d/raw%d/m%d", sei, ps, raw, m),
+							mode:  mode, scn: codec + "/" + sc.name, knd: kind, n: len(d)})
 					}
 				}
 			}
@@ -714,12 +936,17 @@ func (g *c16G) toolCases(reps int) []c16TCase {
 
 // c16ToolFamily generates, runs and evaluates the tool-level cases.
 func c16ToolFamily(c *Ctx, g *c16G) {
-	if _, err := os.Stat(toolPath("mp4ff-pslister")); err != nil {
-		c.Fail("C16-harness-tool-missing", "tool binary missing: "+toolPath("mp4ff-pslister")+" (bin/check builds cmd/mp4ff-pslister into $VERIF_BUILD/tools)", "", "", "")
-		return
+	for _, tn := range []string{"mp4ff-pslister", "mp4ff-nallister"} {
+		if _, err := os.Stat(toolPath(tn)); err != nil {
+			c.Fail("C16-harness-tool-missing", "tool binary missing: "+toolPath(tn)+" (bin/check builds cmd/"+tn+" into $VERIF_BUILD/tools)", "", "", "")
+			return
+		}
 	}
 	t0 := time.Now()
 	cases := g.toolCases(c.N(2, 12))
+	// a generator of its own: the tool.pslister lines do not depend on the tool.nallister ones
+	gn := &c16G{r: rand.New(rand.NewSource(c.Seed*7919 + 17)), k: g.k}
+	cases = append(cases, gn.nallisterCases(c.N(2, 10))...)
 	res := make([]c16TRes, len(cases))
 	nw := runtime.NumCPU()
 	if nw > 12 {
@@ -746,7 +973,7 @@ func c16ToolFamily(c *Ctx, g *c16G) {
 	confirmed := map[string]int{}
 	for i := range cases {
 		cs, r := &cases[i], &res[i]
-		op := "tool.pslister." + cs.mode
+		op := "tool." + cs.tool + "." + cs.mode
 		if r.class == "hang" || r.flags != "" {
 			// confirm alone (nothing else is running now) before reporting; on a tree where the tool hangs on many
 			// inputs only the first few suspects of a mode are confirmed (each costs the timeout), the others are
@@ -768,13 +995,23 @@ func c16ToolFamily(c *Ctx, g *c16G) {
 		}
 		h := sha256.Sum256([]byte(cs.line))
 		c.Eval(op + string(h[:12]))
-		c.Count("group=tool.pslister")
-		c.Count("kind=tool.pslister/" + cs.mode)
+		c.Count("group=tool." + cs.tool)
+		c.Count("kind=tool." + cs.tool + "/" + cs.mode)
+		if cs.flags != "" {
+			c.Count("toolflags=" + cs.tool + "/" + cs.flags)
+		}
 		c.Count("size=" + c16SizeBucket(cs.n))
 		c.Count("result=" + op + "/" + r.class)
-		c.Count("toolscenario=" + cs.scn + ":" + r.class)
-		if cs.knd != "-" {
-			c.Count("toolbroken=" + cs.knd + ":" + r.class)
+		if cs.tool == "pslister" {
+			c.Count("toolscenario=" + cs.scn + ":" + r.class)
+			if cs.knd != "-" {
+				c.Count("toolbroken=" + cs.knd + ":" + r.class)
+			}
+		} else {
+			c.Count("toolscenario." + cs.tool + "=" + cs.scn + ":" + r.class)
+			if cs.knd != "-" {
+				c.Count("toolbroken." + cs.tool + "=" + cs.knd + ":" + r.class)
+			}
 		}
 		if i%997 == 1 {
 			c.Sample(cs.line)
@@ -785,7 +1022,7 @@ func c16ToolFamily(c *Ctx, g *c16G) {
 		if r.cpu > maxCpu {
 			maxCpu = r.cpu
 		}
-		where := fmt.Sprintf("built tool mp4ff-pslister, mode %s, scenario %s, broken parameter set: %s", cs.mode, cs.scn, cs.knd)
+		where := fmt.Sprintf("built tool mp4ff-%s, mode %s, scenario %s, broken unit: %s", cs.tool, cs.mode, cs.scn, cs.knd)
 		switch r.class {
 		case "panic":
 			c.Fail("C16-panic-"+r.fn+" "+r.loc, "the tool process ends with a Go panic instead of a listing or an error ("+where+")", cs.line, op+":"+r.canonical(), "returns a value or an error")
@@ -805,6 +1042,6 @@ func c16ToolFamily(c *Ctx, g *c16G) {
 			c.Fail("C16-hang-"+op, fmt.Sprintf("CPU time %v for %d input bytes, also when run alone (%s)", r.cpu, cs.n, where), cs.line, op+":"+r.canonical(), "returns within 1s + 4us/byte")
 		}
 	}
-	c.Note(fmt.Sprintf("calib tool.pslister: n=%d maxRss=%dKiB maxCpu=%v wall=%.1fs (bounds: rss <= %d MiB + %d*len, cpu <= %v + %v/byte, timeout %v)",
+	c.Note(fmt.Sprintf("calib tool.pslister+tool.nallister: n=%d maxRss=%dKiB maxCpu=%v wall=%.1fs (bounds: rss <= %d MiB + %d*len, cpu <= %v + %v/byte, timeout %v)",
 		len(cases), maxRss, maxCpu, time.Since(t0).Seconds(), c16TRssC>>20, c16TRssK, c16TCpuC, c16TimePerByte, c16TTimeout))
 }
